@@ -185,6 +185,72 @@ def threaded(ctx):
     return fails
 
 
+def held_lock(ctx):
+    """a get issued while another thread is inside set (a key whose __hash__ sleeps keeps it there) still answers for a key that is held and
+    cannot have been evicted, and its use is counted; several readers with no eviction possible never see a held key as missing"""
+    import time
+    from deepdiff.lfucache import LFUCache
+    fails = []
+
+    class Slow:
+        def __init__(self, n):
+            self.n = n; self.slow = False
+        def __hash__(self):
+            if self.slow:
+                time.sleep(0.05)
+            return hash(('slow', self.n))
+        def __eq__(self, other):
+            return isinstance(other, Slow) and other.n == self.n
+
+    for cap in (3, 8):
+        c = LFUCache(cap)
+        c.set('held', value='v0')
+        sk = Slow(1); sk.slow = True
+        t = threading.Thread(target=lambda: c.set(sk, value='slow'))
+        t.start()
+        time.sleep(0.01)
+        got = [c.get('held') for _ in range(3)]
+        t.join()
+        ctx.evaluations += 1
+        ctx.count('held_lock_rounds')
+        if got != ['v0'] * 3:
+            fails.append({'cap': cap, 'why': "get('held') issued while another thread was inside set returned %r, not the held value" % (got,)})
+            continue
+        try:
+            freq = {k: f for f, es in heap_walk(c) for (k, _v) in es} if True else {}
+        except Exception:
+            freq = {}
+        if freq and freq.get('held') not in (None, 3, 4):
+            fails.append({'cap': cap, 'why': 'three gets of a held key during a concurrent set left its use count at %r' % freq.get('held')})
+    # readers and writers over fewer keys than the capacity: nothing can be evicted, so every get of a key set before the threads start answers
+    old = sys.getswitchinterval()
+    sys.setswitchinterval(1e-6)
+    try:
+        c = LFUCache(16)
+        for k in range(6):
+            c.set(k, value=k)
+        missing = []
+
+        def work(seed):
+            r = random.Random(seed)
+            for i in range(1500):
+                k = r.randint(0, 5)
+                if r.random() < 0.6:
+                    if c.get(k) != k:
+                        missing.append(k)
+                else:
+                    c.set(k, value=k)
+        ths = [threading.Thread(target=work, args=(ctx.seed * 77 + t,)) for t in range(8)]
+        [t.start() for t in ths]
+        [t.join() for t in ths]
+        ctx.evaluations += 1
+        if missing:
+            fails.append({'cap': 16, 'why': '%d gets of keys that are held and cannot be evicted did not return their value under 8 threads' % len(missing)})
+    finally:
+        sys.setswitchinterval(old)
+    return fails
+
+
 def run(ctx, impl_only=False):
     cases = gen_cases(ctx)
     lines = [line_of(cap, ops) for cap, ops in cases]
@@ -238,6 +304,8 @@ def run(ctx, impl_only=False):
             ctx.violate({'cap': cap, 'ops': [list(map(repr, o)) if o[0] == 's' else list(o) for o in ops], 'line': 'odd values'}, why)
     for f in threaded(ctx):
         ctx.violate({'threads': 8, **f}, f['why'])
+    for f in held_lock(ctx):
+        ctx.violate({'threads': 'held lock', **f}, f['why'])
 
 
 def search(ctx):
